@@ -111,8 +111,10 @@ def operand_sweep(rng, tier, tid0):
                               + [255, 256, 257, 1023, 1024, 1025, 32767, 32768, 49151, 49152]))
     for x in operands:
         for op in ("lt", "gt", "eq", "neq"):
-            if tier == "thorough" and op in ("eq", "neq") and x % 16 not in (0, 1, 15) and not (x < 64 or x > 65472):
+            if tier == "thorough" and op == "eq" and x % 16 not in (0, 1, 15) and not (x < 64 or x > 65472):
                 continue
+            if tier == "thorough" and op == "neq" and x % 64 not in (0, 63) and not (x < 64 or x > 65472):
+                continue        # each neq write-back builds and scans 65535-element lists (0.35 s)
             wb = WB[:] if (tier == "quick" and op != "neq") else [WB[(x + k) % 3] for k in range(2)]
             if tier == "quick" and op == "neq" and x % 3 and 40 < x < 65500:
                 continue
@@ -184,7 +186,7 @@ def run(tier, seed):
     mcs = [core.mc("MC_PortSem"), core.mc("MC_PortObj", "MC_PortObj" if tier == "thorough" else "MC_PortObj_d3", workers=8)]
     hists, gen = core.generate("MC_PortObj", "MC_PortObj_gen" if tier == "quick" else "MC_PortObj_gen_thorough")
     rs = random.Random(seed + 2)
-    frac = 0.2 if tier == "quick" else 0.12
+    frac = 0.2 if tier == "quick" else 0.03
     hists = [h for h in hists if h["hist"] and rs.random() < frac]
     jobs = concretise(hists, MAPS[:2] if tier == "quick" else MAPS, 1, ["ios"] if tier == "quick" else ["ios", "nxos"])
     jobs += operand_sweep(rng, tier, len(jobs) + 1)
